@@ -298,6 +298,9 @@ func runC43(x *simkit.Exec) {
 	}
 	x.Sample = map[string]any{"config": cfg.String(), "tenants": tenants, "requests": len(reqs), "cache": cacheMode, "shared_backend": sharedBackend}
 
+	col := &collector{}
+	defer col.flush(x, "no-foreign-data", "key-injective", "key-injective-direct")
+
 	// ---- monitor 2: the real key generator, called directly -------------------------------------
 	type owner struct {
 		id     *identity
@@ -334,11 +337,11 @@ func runC43(x *simkit.Exec) {
 			if o.id.String() != r.ident.String() {
 				x.Nontrivial = true
 				for _, cls := range keyClasses(o.id, r.ident) {
-					x.Violate("key-injective-direct", cls, "the real key generator maps two requests with different identities to one key.\nkey: %q\nrequest A: %s\n  identity: %s\nrequest B: %s\n  identity: %s\ndiffer in: %v",
+					col.add("key-injective-direct", cls, "the real key generator maps two requests with different identities to one key.\nkey: %q\nrequest A: %s\n  identity: %s\nrequest B: %s\n  identity: %s\ndiffer in: %v",
 						key, o.req, o.id, r.clientReq, r.ident, o.id.diff(r.ident))
 				}
 			} else if o.bucket != bucket {
-				x.Violate("key-injective-direct", r.ident.Kind+"-key:split-bucket-not-in-key", "two requests in different split-interval buckets (%d, %d) share key %q\nA: %s\nB: %s", o.bucket, bucket, key, o.req, r.clientReq)
+				col.add("key-injective-direct", r.ident.Kind+"-key:split-bucket-not-in-key", "two requests in different split-interval buckets (%d, %d) share key %q\nA: %s\nB: %s", o.bucket, bucket, key, o.req, r.clientReq)
 			} else {
 				x.Probe("c43.direct_same_identity_same_key")
 			}
@@ -396,7 +399,7 @@ func runC43(x *simkit.Exec) {
 				}
 				x.Nontrivial = true
 				for _, cls := range keyClasses(o.id, t.ident) {
-					s.Violate("key-injective", cls, "two requests with different identities store under one results-cache key.\nkey: %q (hashed %s, backend %q)\nfirst stored by %s: identity %s\nnow stored by %s: identity %s\ndiffer in: %v",
+					col.add("key-injective", cls, "two requests with different identities store under one results-cache key.\nkey: %q (hashed %s, backend %q)\nfirst stored by %s: identity %s\nnow stored by %s: identity %s\ndiffer in: %v",
 						full, key, backend, o.req, o.id, t.id, t.ident, o.id.diff(t.ident))
 				}
 			}
@@ -450,13 +453,13 @@ func runC43(x *simkit.Exec) {
 			if !r.got.ok() {
 				if r.tag.faults == 0 {
 					// no fault was injected on this request's sub-requests: the frontend failed on its own
-					s.Violate("no-foreign-data", "request-fails:"+r.ident.Kind+":"+errClass(r.got), "request %s failed although nothing was injected.\nrequest: %s\noutcome: %s\nall requests:\n%s", r.tag.id, r.clientReq, r.got.brief(), history())
+					col.add("no-foreign-data", "request-fails:"+r.ident.Kind+":"+errClass(r.got), "request %s failed although nothing was injected.\nrequest: %s\noutcome: %s\nall requests:\n%s", r.tag.id, r.clientReq, r.got.brief(), history())
 				}
 				continue
 			}
 			sigs, det := foreignData(r, cfg)
 			for _, sig := range sigs {
-				s.Violate("no-foreign-data", sig, "response for %s contains data the querier produced for another identity.\nrequest: %s\nidentity: %s\n%s\nresponse: %s\nall requests:\n%s",
+				col.add("no-foreign-data", sig, "response for %s contains data the querier produced for another identity.\nrequest: %s\nidentity: %s\n%s\nresponse: %s\nall requests:\n%s",
 					r.tag.id, r.clientReq, r.ident, det, trunc(string(r.got.Body), 1500), history())
 			}
 			if len(sigs) == 0 {
